@@ -620,7 +620,11 @@ func runNocopyRaw(c *StructCase, w *TraceWriter, seeds []int) {
 	if len(val) >= 4096 {
 		nlarge = 1
 	}
-	for _, hs := range [][2]int{{1, 0}, {0, 0}, {1, 1 + int(uint32(c.I)%97)}, {1, 4096}} {
+	variants := [][2]int{{1, 0}, {0, 0}, {1, 1 + int(uint32(c.I)%97)}, {1, 4096}}
+	if len(val) > 1<<28 {
+		variants = variants[:1] // (a GiB is not copied four times)
+	}
+	for _, hs := range variants {
 		has := hs[0] == 1
 		slack := int(c.I % 7)
 		// spare capacity behind the destination's length (a pooled buffer cut to size): positions count from len, never from cap
